@@ -35,7 +35,7 @@ REQUIRED_FEATURES = ["fault:invalid-record:bin=nbins", "fault:invalid-record:bin
                      "producer:coarsen", "dest:new-file-root", "dest:new-file-nested", "dest:populated-root",
                      "dest:new-group", "dest:existing-empty-group", "dest:existing-noncooler-group", "dest:existing-link-alias",
                      "phase:write_pixels", "phase:create", "phase:write_info", "phase:write_indexes",
-                     "options:metadata", "options:assembly+h5opts"]
+                     "options:metadata", "options:assembly+h5opts", "fault:invalid-record-in-chunk>1e6-rows"]
 SHARD_TIMEOUT = {"quick": 1800, "thorough": 7200}
 
 DESTS = ["new-file-root", "new-file-nested", "populated-root", "new-group", "existing-empty-group",
@@ -48,6 +48,7 @@ def plan(tier, seed):
     s += [{"kind": "line", "sub": i, "cases": 3 if tier == "quick" else 6, "all": tier != "quick"}
           for i in range(n)]
     s += [{"kind": "exit", "sub": i, "cases": 3 if tier == "quick" else 8} for i in range(4 if tier == "quick" else 12)]
+    s += [{"kind": "bigchunk", "sub": i, "cases": 1} for i in range(2 if tier == "quick" else 6)]
     return s
 
 
@@ -61,6 +62,8 @@ def run(ctx, shard):
             input_faults(ctx, shard, i, rng)
         elif shard["kind"] == "line":
             line_faults(ctx, shard, i, rng)
+        elif shard["kind"] == "bigchunk":
+            big_chunk_faults(ctx, shard, rng)
         else:
             exit_faults(ctx, shard, i, rng)
 
@@ -465,3 +468,63 @@ def exit_faults(ctx, shard, i, rng):
             ctx.extra["process_exits_delivered"] = ctx.extra.get("process_exits_delivered", 0) + 1
             if die == 0:
                 ctx.sample(desc, limit=6)
+
+
+def big_chunk_faults(ctx, shard, rng):
+    """One chunk of more than a million records (scale boundary: the library's internal block size is 10**6 rows):
+    the invalid record sits at / around row k * 10**6 of the caller's single chunk."""
+    import cooler
+    from cooler.create import BadInputError
+
+    nb = 1500
+    bt = [["chrBig", list(range(0, nb * 10 + 1, 10))]]
+    bins = gen.bt_frame(bt)
+    i_, j_ = np.triu_indices(nb)
+    m = 1_000_000 + int(rng.integers(3, 2000))
+    base = pd.DataFrame({"bin1_id": i_[:m].astype(np.int64), "bin2_id": j_[:m].astype(np.int64),
+                         "count": np.ones(m, dtype=np.int32)})
+    variants = [("duplicate", 999_999, 1_000_000), ("duplicate", 999_998, 1_000_001), ("bin=nbins", None, 1_000_000),
+                ("bin=-1", None, 1_000_001), ("lower-triangle", None, 1_000_000), ("duplicate", 5, m - 1)]
+    k0 = shard["sub"] * 3
+    for v, (kind, src, at) in enumerate(variants[k0 % len(variants):] + variants[:k0 % len(variants)]):
+        if v >= 3:
+            break
+        unordered = bool((shard["sub"] + v) % 2)
+        cid = f"bigchunk:{shard['sub']}:{v}"
+        if not ctx.want(cid):
+            continue
+        df = base.copy()
+        if kind == "duplicate":
+            df.loc[at, ["bin1_id", "bin2_id"]] = df.loc[src, ["bin1_id", "bin2_id"]].to_numpy()
+            df.loc[at, "count"] = 7                      # same pixel, another value
+        elif kind == "bin=nbins":
+            df.loc[at, "bin2_id"] = nb
+        elif kind == "bin=-1":
+            df.loc[at, "bin1_id"] = -1
+        else:
+            a, b = int(df.loc[at, "bin1_id"]), int(df.loc[at, "bin2_id"])
+            if a == b:
+                at += 1
+                a, b = int(df.loc[at, "bin1_id"]), int(df.loc[at, "bin2_id"])
+            df.loc[at, ["bin1_id", "bin2_id"]] = [b, a]
+        env = Env(ctx, rng, ["new-file-root", "new-group"][v % 2], [["q", [0, 3, 6, 9]]], True)
+        desc = {"producer": "create-unordered" if unordered else "create", "dest": env.dest_kind, "rows_in_chunk": m,
+                "fault": kind, "at_row": at, "copy_of_row": src}
+        with ctx.case(cid, desc) as c:
+            c.feature("fault:invalid-record-in-chunk>1e6-rows", f"producer:{desc['producer']}", f"dest:{env.dest_kind}")
+            raised = None
+            try:
+                if unordered:
+                    cooler.create_cooler(env.uri, bins, iter([df]), ordered=False, mode=env.mode, mergebuf=10**7)
+                else:
+                    cooler.create_cooler(env.uri, bins, df if v % 2 else iter([df]), ordered=True, mode=env.mode)
+            except BadInputError:
+                raised = "BadInputError"
+            except Exception as e:  # noqa
+                raised = type(e).__name__
+            c.check(raised == "BadInputError", f"invalid-input-not-rejected:{kind}:chunk>1e6-rows",
+                    f"a single chunk of {m} records with an invalid record ({kind}) at row {at}"
+                    f"{'' if src is None else ' (same pixel as row ' + str(src) + ')'} was not rejected with BadInputError "
+                    f"(outcome: {raised})")
+            env.verify(c, f"invalid:{kind}:chunk>1e6-rows")
+            c.nontrivial("bigchunk", kind, at, src, unordered)
